@@ -257,6 +257,10 @@ class Swarm:
 
             thread = Thread(target=self._thread_function_wrapper, args=args)
             threads.append(thread)
+
+        # Start only when the arguments of every member are known, an
+        # incomplete args_dict must not leave running threads behind
+        for thread in threads:
             thread.start()
 
         for thread in threads:
